@@ -46,6 +46,10 @@ def mk_decl(I):
 
 
 def _norm(I, x):
+    if x is None:
+        return None  # helper.normalize returns a falsy argument unchanged
+    if isinstance(x, Opt):
+        return Opt(x.isnone, _norm(I, x.val))
     x = I.need(x)
     if not is_sym(x):
         import cssutils.helper
@@ -137,3 +141,316 @@ GP.loops[('loop', 1)] = {'name': 'reversed_scan', 'inv': _gp_inv, 'havoc': ['val
 @GP.ensure
 def returns_the_effective_property(seq, name, normalize, result):
     return effective(seq, name, normalize, result)
+
+
+# ------------------------------------------------------------------ getProperties(name, all=True): the ordered entry list of the model
+# Ghost F(j) = number of kept entries among seq[0:j]  (F(0) = 0, F(j+1) = F(j) + [keep(j)]); the result list R is fully determined by
+#   len(R) == F(len(seq))   and   for every kept j:  R[F(j)] is seq[j].value
+I_ = z3.IntSort()
+F_KEPT = z3.Function('kept_before', I_, I_)
+
+
+def _keep_term(I, seq, j, nname):
+    """entry j is a Property and (no name given or its normalised name is the given one)"""
+    p = I.p
+    item, ival = _schemas()
+    vid_ = z3.Select(H.heap_array(p, item, 'value'), z3.Select(seq.elems, j))  # (mk_decl: every item holds a value object)
+    kind = z3.Select(H.heap_array(p, ival, 'kind'), vid_)
+    pname = z3.Select(H.heap_array(p, ival, 'name'), vid_)
+    if nname is None:
+        return kind == PROP
+    if isinstance(nname, Opt):
+        return z3.And(kind == PROP, z3.Or(nname.isnone, z3.Length(lift(nname.val)) == 0, pname == lift(nname.val)))
+    return z3.And(kind == PROP, z3.Or(z3.Length(lift(nname)) == 0, pname == lift(nname)))
+
+
+def _inst_F(I, seq, j, nname):
+    I.p.assume(z3.Implies(z3.And(j >= 0, j < seq.length), F_KEPT(j + 1) == F_KEPT(j) + z3.If(_keep_term(I, seq, j, nname), 1, 0)))
+
+
+GPA = register(Target('cssutils/css/cssstyledeclaration.py', 'CSSStyleDeclaration.getProperties', ['C10'],
+                      name='cssutils/css/cssstyledeclaration.py::CSSStyleDeclaration.getProperties[all=True]'))
+GPA.models.update(SPEC_MODELS)
+
+
+@GPA.inputs
+def _in_gpa(I):
+    me, seq = mk_decl(I)
+    p = I.p
+    p.assume(F_KEPT(0) == 0)
+    p.note_assumption('getProperties: the number of kept entries before position j is defined by its recurrence (ghost function, instantiated where the loop advances)')
+    name = p.fresh_opt('str', 'name')
+    p.ghost['seq'] = seq
+    return {'self': me, 'name': name, 'all': True, 'seq': seq}
+
+
+def _gpa_nname(fr):
+    return fr.lookup('nname')
+
+
+def _gpa_inv(I, fr, it):
+    p = I.p
+    seq = p.ghost['seq']
+    q = it.q
+    nname = _gpa_nname(fr)
+    _inst_F(I, seq, q, nname)
+    _inst_F(I, seq, q - 1, nname)
+    res = fr.lookup('properties')
+    j = H._bound_var(p, 'j')
+    item, ival = _schemas()
+    vid = lambda idx: z3.Select(H.heap_array(p, item, 'value'), z3.Select(seq.elems, idx))
+    if isinstance(res, SX.SList):
+        return z3.And(z3.BoolVal(len(res.items) == 0), q == 0, F_KEPT(q) == 0)
+    return z3.And(res.length == F_KEPT(q), F_KEPT(q) >= 0,
+                  z3.ForAll([j], z3.Implies(z3.And(j >= 0, j < q, _keep_term(I, seq, j, nname)),
+                                            z3.And(F_KEPT(j) >= 0, F_KEPT(j) < F_KEPT(q), z3.Select(res.elems, F_KEPT(j)) == vid(j)))))
+
+
+def _gpa_havoc(I, fr):
+    item, ival = _schemas()
+    p = I.p
+    p.counter += 1
+    fr.store('properties', H.SymList(z3.Array(f'props!{p.counter}', I_, I_), z3.Int(f'propslen!{p.counter}'), ival))
+
+
+GPA.loops[('loop', 1)] = {'name': 'collect', 'inv': _gpa_inv, 'havoc': ['item', 'val'], 'havoc_extra': [_gpa_havoc]}
+
+
+def _m_entries(I, args, kw):
+    ghost, seq, name, result = args
+    p = I.p
+    n = seq.length
+    # the normalised name as the function computed it
+    nname = Opt(name.isnone, _norm(I, name.val)) if isinstance(name, Opt) else (_norm(I, name) if name is not None else None)
+    j = H._bound_var(p, 'j')
+    item, ival = _schemas()
+    vid = lambda idx: z3.Select(H.heap_array(p, item, 'value'), z3.Select(seq.elems, idx))
+    if isinstance(result, SX.SList):
+        ln, at = z3.IntVal(len(result.items)), None
+        if len(result.items) == 0:
+            return Sym('bool', z3.And(F_KEPT(n) == 0))
+        raise Unsupported('concrete non-empty result')
+    return Sym('bool', z3.And(result.length == F_KEPT(n),
+                              z3.ForAll([j], z3.Implies(z3.And(j >= 0, j < n, _keep_term(I, seq, j, nname)), z3.Select(result.elems, F_KEPT(j)) == vid(j)))))
+
+
+@GPA.ensure
+def returns_the_matching_entries_in_document_order(ghost, seq, name, result):
+    return entries_in_order(ghost, seq, name, result)
+
+
+# ------------------------------------------------------------------ native replay: a real declaration block with the model's entries
+def build_decl(conc, model):
+    """real CSSStyleDeclaration whose entry list has the model's entries (value objects built without going through the parser)"""
+    import cssutils.css as C
+    lst = conc['seq']
+    if lst['length'] > len(lst['__symlist__']):
+        raise RuntimeError('entry list longer than the concretiser materialises')
+    arr = lambda f, srt: z3.Array(f'heap0_ival_{f}', z3.IntSort(), srt)
+    from pyvc.target import z3str_to_py
+    ev = lambda t: model.eval(t, model_completion=True)
+    s = C.CSSStyleDeclaration()
+    seq = s._tempSeq()
+    byid = {}
+    for d in lst['__symlist__']:
+        vid = d['value']
+        if vid not in byid:
+            kind = ev(z3.Select(arr('kind', z3.IntSort()), vid)).as_long()
+            if kind == PROP:
+                pr = C.Property('a', 'b')
+                pr._name = z3str_to_py(ev(z3.Select(arr('name', z3.StringSort()), vid)))
+                pr._literalname = z3str_to_py(ev(z3.Select(arr('literalname', z3.StringSort()), vid)))
+                pr._priority = z3str_to_py(ev(z3.Select(arr('priority', z3.StringSort()), vid)))
+                byid[vid] = pr
+            else:
+                byid[vid] = C.CSSComment('/*c*/')
+        v = byid[vid]
+        seq.append(v, 'Property' if isinstance(v, C.Property) else 'COMMENT')
+    s._setSeq(seq)
+    return s
+
+
+def _gp_native(mod, conc, model):
+    s = build_decl(conc, model)
+    r = s.getProperty(conc['name'], conc['normalize'])
+    return ('return', r, {'seq': list(s.seq)})
+
+
+GP.native_call = _gp_native
+
+
+def _gpa_native(mod, conc, model):
+    s = build_decl(conc, model)
+    r = s.getProperties(conc['name'], all=True)
+    return ('return', r, {'seq': list(s.seq), 'ghost': {}})
+
+
+GPA.native_call = _gpa_native
+
+
+def entries_in_order(ghost, seq, name, result):  # noqa: F811  (native form; the symbolic form is the Model registered above)
+    from cssutils.css import Property
+    nn = normalize(name)
+    want = [it.value for it in seq if isinstance(it.value, Property) and ((not nn) or it.value.name == nn)]
+    return len(want) == len(result) and all(a is b for a, b in zip(want, result))
+
+
+GPA.models[entries_in_order] = Model(_m_entries, 'post (z3)', assumed=False)
+
+
+# ------------------------------------------------------------------ removeProperty(name, normalize): every entry of that name goes, the others stay in order
+# Ghost G(j) = number of entries kept among seq[0:j]; the new entry list N is fully determined by
+#   len(N) == G(len(seq))   and   for every kept j:  N[G(j)] is seq[j]     (kept = not (a Property addressed by the name))
+# and a read-only block raises NoModificationAllowedErr with the entry list untouched (C11).
+G_KEPT = z3.Function('kept_items_before', I_, I_)
+
+
+class _SeqStub:
+    pass
+
+
+def _rm_gone(I, seq, j, name, normalized):
+    """entry j is a Property addressed by the name: normalised name equal to normalize(name), or (normalize=False) literal name equal to name"""
+    p = I.p
+    item, ival = _schemas()
+    vid_ = z3.Select(H.heap_array(p, item, 'value'), z3.Select(seq.elems, j))
+    kind = z3.Select(H.heap_array(p, ival, 'kind'), vid_)
+    key = z3.Select(H.heap_array(p, ival, 'name' if normalized else 'literalname'), vid_)
+    want = lift(_norm(I, name)) if normalized else lift(name)
+    return z3.And(kind == PROP, key == want)
+
+
+def _mk_rm(normalized):
+    t = register(Target('cssutils/css/cssstyledeclaration.py', 'CSSStyleDeclaration.removeProperty', ['C10', 'C11'],
+                        name=f'cssutils/css/cssstyledeclaration.py::CSSStyleDeclaration.removeProperty[normalize={normalized}]'))
+    t.models.update(SPEC_MODELS)
+    import xml.dom
+    t.allow_raise(xml.dom.NoModificationAllowedErr)
+
+    @t.inputs
+    def _in(I):
+        import cssutils.css as C
+        import cssutils.util as U
+        me, seq = mk_decl(I)
+        me.plain_setattr = True  # CSSStyleDeclaration.__setattr__ only intercepts DOM property names; `_seq` is stored as a plain attribute
+        p = I.p
+        p.assume(G_KEPT(0) == 0)
+        p.note_assumption('removeProperty: the number of kept entries before position j is defined by its recurrence (ghost function, instantiated where the loop advances)')
+        p.ghost['seq'] = seq
+        p.ghost['normalized'] = normalized
+        M = p.engine.models
+        M[C.CSSStyleDeclaration.getPropertyValue] = Model(lambda I2, a, k: I2.p.fresh('str', 'oldvalue'), 'getPropertyValue: some string (own contract: getProperty)', assumed=True)
+        M[U._NewBase._tempSeq if hasattr(U, '_NewBase') else U.Base2._tempSeq] = Model(lambda I2, a, k: Obj(U.Seq, {'_seq': SList([]), '_readonly': False}), 'a fresh writable Seq', assumed=False)
+        M[U.Base2._tempSeq] = M[U._NewBase._tempSeq if hasattr(U, '_NewBase') else U.Base2._tempSeq]
+        p.engine.inline.add(U.Seq.appendItem)
+        p.engine.inline.add(U.Base2._setSeq)
+        p.engine.inline.add(U._BaseClass._checkReadonly)
+        name = p.fresh('str', 'name')
+        p.ghost['name'] = name
+        return {'self': me, 'name': name, 'normalize': normalized, 'seq': seq}
+
+    def _inv(I, fr, it):
+        p = I.p
+        seq = p.ghost['seq']
+        name = p.ghost['name']
+        q = it.q
+        for jj in (q, q - 1):
+            p.assume(z3.Implies(z3.And(jj >= 0, jj < seq.length), G_KEPT(jj + 1) == G_KEPT(jj) + z3.If(_rm_gone(I, seq, jj, name, normalized), 0, 1)))
+        new = fr.lookup('newseq').fields['_seq']
+        j = H._bound_var(p, 'j')
+        if isinstance(new, SX.SList):
+            return z3.And(z3.BoolVal(len(new.items) == 0), q == 0, G_KEPT(q) == 0)
+        return z3.And(new.length == G_KEPT(q), G_KEPT(q) >= 0,
+                      z3.ForAll([j], z3.Implies(z3.And(j >= 0, j < q, z3.Not(_rm_gone(I, seq, j, name, normalized))),
+                                                z3.And(G_KEPT(j) >= 0, G_KEPT(j) < G_KEPT(q), z3.Select(new.elems, G_KEPT(j)) == z3.Select(seq.elems, j)))))
+
+    def _havoc(I, fr):
+        item, ival = _schemas()
+        p = I.p
+        p.counter += 1
+        fr.lookup('newseq').fields['_seq'] = H.SymList(z3.Array(f'newseq!{p.counter}', I_, I_), z3.Int(f'newseqlen!{p.counter}'), item)
+
+    t.loops[('loop', 1 if normalized else 2)] = {'name': 'filter', 'inv': _inv, 'havoc': ['item'], 'havoc_extra': [_havoc]}
+
+    @t.ensure
+    def removes_exactly_the_entries_of_that_name_and_keeps_the_others_in_order(ghost, self, seq, name):
+        return rm_post(ghost, self, seq, name)
+
+    @t.ensure
+    def a_readonly_block_is_never_changed_silently(old):
+        return not old['self']._readonly
+
+    t.models[rm_post] = Model(_m_rm_post, 'post (z3)', assumed=False)
+    t.models[same_entries] = Model(_m_same_entries, 'same entry list (z3)', assumed=False)
+
+    @t.on_raise(xml.dom.NoModificationAllowedErr)
+    def only_a_readonly_block_refuses_and_nothing_changed(self, old):
+        return old['self']._readonly and same_entries(self, old['self'])
+
+    return t
+
+
+def same_entries(a, b):
+    return list(a.seq) == list(b.seq)
+
+
+def _m_same_entries(I, args, kw):
+    a, b = args[0].fields['_seq'], args[1].fields['_seq']
+    if type(a).__name__ != 'SymList' or type(b).__name__ != 'SymList':
+        return Sym('bool', z3.BoolVal(False))
+    return Sym('bool', z3.And(a.length == b.length, a.elems == b.elems))
+
+
+def rm_post(ghost, self, seq, name):
+    """native form (replay): seq = the entries before the call (list of Items), self = the block after it"""
+    from cssutils.css import Property
+    if ghost['normalized']:
+        nn = normalize(name)
+        gone = lambda it: isinstance(it.value, Property) and it.value.name == nn
+    else:
+        gone = lambda it: isinstance(it.value, Property) and it.value.literalname == name
+    want = [it for it in seq if not gone(it)]
+    got = list(self.seq)
+    return len(want) == len(got) and all(a is b for a, b in zip(want, got))
+
+
+def _rm_native(normalized):
+    def run(mod, conc, model):
+        s = build_decl(conc, model)
+        s._readonly = bool(conc['self']['fields'].get('_readonly'))
+        before = list(s.seq)
+        import types
+        post = {'self': s, 'seq': before, 'ghost': {'normalized': normalized},
+                'old': {'self': types.SimpleNamespace(_readonly=s._readonly, seq=before)}}
+        try:
+            r = s.removeProperty(conc['name'], normalize=normalized)
+        except Exception as e:  # noqa: BLE001
+            return ('raise', e, post)
+        return ('return', r, post)
+    return run
+
+
+def _m_rm_post(I, args, kw):
+    ghost, me, seq, name = args
+    p = I.p
+    normalized = ghost['normalized']
+    n = seq.length
+    holder = me.fields['_seq']
+    if not isinstance(holder, Obj):
+        return Sym('bool', z3.BoolVal(False))
+    new = holder.fields['_seq']
+    ro = holder.fields['_readonly']
+    j = H._bound_var(p, 'j')
+    if isinstance(new, SX.SList):
+        if len(new.items) != 0:
+            raise Unsupported('concrete non-empty new entry list')
+        return Sym('bool', z3.And(G_KEPT(n) == 0, SX.as_bool_term(truth(ro))))
+    return Sym('bool', z3.And(new.length == G_KEPT(n), SX.as_bool_term(truth(ro)),
+                              z3.ForAll([j], z3.Implies(z3.And(j >= 0, j < n, z3.Not(_rm_gone(I, seq, j, name, normalized))),
+                                                        z3.Select(new.elems, G_KEPT(j)) == z3.Select(seq.elems, j)))))
+
+
+RM_N = _mk_rm(True)
+RM_L = _mk_rm(False)
+RM_N.native_call = _rm_native(True)
+RM_L.native_call = _rm_native(False)
